@@ -240,6 +240,22 @@ func c03OracleStep(i int, op *eng.Op, so eng.StepObs, reqs []sim.Req, prev []eng
 				// K6: a resource of the original release that the failed target omits is still live, and the rollback aborted
 				sig := "C03:atomic-upgrade-not-restored"
 				tk := resKeys(target)
+				// what Upgrade.failRelease takes for "previously successful": the highest revision recorded superseded
+				// or deployed.  After a failed rollback that is not necessarily a revision that was ever deployed
+				// (performRollback marks the CURRENT revision superseded when its update fails, also a failed one).
+				var picked *eng.LedgerRow
+				for k := range prev {
+					if prev[k].Status == "superseded" || prev[k].Status == "deployed" {
+						picked = &prev[k]
+					}
+				}
+				if picked != nil && picked.Rev != good.Rev && !wasDeployed[picked.Rev] {
+					last := so.Ledger[len(so.Ledger)-1]
+					if !had[last.Rev] && last.Status == "deployed" && manifestEqual(last.Manifest, picked.Manifest) {
+						sig = "C03:atomic-upgrade-restores-never-deployed-revision" // K11
+						bad += fmt.Sprintf(" [it carries the manifest of revision %d, which is recorded superseded but was never deployed]", picked.Rev)
+					}
+				}
 				var cur *eng.LedgerRow
 				for k := range prev {
 					if prev[k].Status == "deployed" {
@@ -259,6 +275,17 @@ func c03OracleStep(i int, op *eng.Op, so eng.StepObs, reqs []sim.Req, prev []eng
 							sig = "C03:atomic-rollback-aborts-on-dropped-resource"
 							bad += fmt.Sprintf(" [%s is live, belongs to revision %d and is omitted by the failed target]", r.Key(), cur.Rev)
 							break
+						}
+					}
+					// the same abort, seen from the revision the rollback was aimed at (after earlier failures the
+					// deployed / newest revision need not be the one whose resources are live)
+					if picked != nil && sig != "C03:atomic-rollback-aborts-on-dropped-resource" {
+						for _, r := range picked.Manifest {
+							if _, live := so.Objs[r.Key()]; live && !tk[r.Key()] {
+								sig = "C03:atomic-rollback-aborts-on-dropped-resource"
+								bad += fmt.Sprintf(" [%s is live, belongs to revision %d (the rollback target) and is omitted by the failed target]", r.Key(), picked.Rev)
+								break
+							}
 						}
 					}
 				}
